@@ -578,6 +578,14 @@ func TestDecElectionID(c *fluent.GRIBIClient, t testing.TB, _ ...TestOpt) {
 			WithCurrentServerElectionID(electionID.Load(), 0).
 			AsResult(),
 	)
+
+	// The answer to the first update is still in the results and satisfies the check above on
+	// its own - make sure that the answer to the decremented ID did not report anything else.
+	for _, r := range c.Results(t) {
+		if id := r.CurrentServerElectionID; id != nil && (id.GetHigh() != 0 || id.GetLow() != electionID.Load()) {
+			t.Fatalf("server reported election ID %v after a lower election ID was sent, want low: %d", id, electionID.Load())
+		}
+	}
 }
 
 // TestSameElectionIDFromTwoClients is the test to start 2 clients with same election ID.
